@@ -64,7 +64,7 @@ const char *const *hx_helper_argv(void);
 void hx_forked_side(reproc_t *p, int r) __attribute__((noreturn)); /* { <scratch>/bin/vchild, NULL } */
 
 /* end-of-execution ledger clauses shared by several properties; prop = owning property */
-void hx_check_ledgers(const char *prop, const struct vk_fdsnap *before, int expect_children_reaped);
+void hx_check_ledgers(const char *prop, const char *key, const struct vk_fdsnap *before, int expect_children_reaped);
 
 const char *hx_errname(int r); /* "-EPIPE" etc. for logs and keys */
 const char *hx_stop_str(reproc_stop_actions a, char *buf, size_t n);
